@@ -24,7 +24,7 @@ RULE = (
     "what it held; q2's answer equals q2 on a fresh object and a repeated q2.  Cross-object histories: for each class, in three fresh "
     "interpreters, every observable and query answer of an object Y is bit-identical whether Y is used alone, after a twin with the "
     "same combinatorics but different geometry was used (keys forced to collide), after another object of its class was built/queried/"
-    "mutated, or after objects of all ten classes were (no hidden shared state).  non-trivial = ordered pair "
+    "mutated, or after objects of all ten classes were (no hidden shared state).  Also: xy-plane start states with -z normal (clockwise input) for ConvexPolygon / ConvexSpheropolygon.  non-trivial = ordered pair "
     "with q1 != q2."
 )
 ASSUMPTIONS = ["plot/to_plato_scene need optional packages and are not in the alphabet"]
